@@ -3,6 +3,7 @@ import RustbusModel.Spec.Header
 import RustbusModel.Lemmas.Wire
 import RustbusModel.Lemmas.WireShape
 import RustbusModel.Lemmas.HeaderField
+import RustbusModel.Lemmas.HeaderMarshal
 /-!
 Lemmas about the header model. Statements fixed; helper lemmas may be added above / in Lemmas/Header*.lean.
 -/
@@ -181,6 +182,30 @@ theorem decodeHeader_iff (buf : List UInt8) (fx : Fixed) (fs : List Field) (used
     rw [hfc]
     simp [hok, hused]
 
+/-! ### marshalling -/
+
+theorem fixedBytes_length (fx : Fixed) : (fixedBytes fx).length = 12 := by simp [fixedBytes]
+
+/-- decoding a header assembled from its parts (no array limit involved) -/
+theorem decodeHeader_build (fx : Fixed) (fs : List Field) (es : List Entry) (body rest : List UInt8)
+    (hfx : fixedOk fx) (henc : encList fx.bo 16 elemTy (es.map entryVal) = some body)
+    (hlt : body.length < 256 ^ 4) (hef : entriesFields es = some fs) (hok : fieldsOk fx.typ fs = true) :
+    decodeHeader (fixedBytes fx ++ (bytesOf fx.bo 4 body.length ++ (body ++ rest))) =
+      some (fx, fs, 16 + body.length) := by
+  unfold decodeHeader
+  rw [decodeFixed_fixedBytes fx _ hfx]
+  simp only []
+  have hl12 := fixedBytes_length fx
+  rw [readNum_ok fx.bo (fixedBytes fx) (body ++ rest) 4 body.length _ 12 hl12.symm hlt
+    (by simp [hl12]; omega) (by simp [hl12]; omega)]
+  simp only []
+  rw [if_pos (by simp [hl12]; omega)]
+  have hfc := fields_complete fx.bo es fs (fixedBytes fx ++ bytesOf fx.bo 4 body.length) body rest body.length
+    (by simpa [hl12] using henc) hef (Nat.le_refl _)
+  simp only [List.append_assoc, List.length_append, hl12, bytesOf_length] at hfc
+  rw [hfc]
+  simp [hok]
+
 /-- The marshaller emits the fixed part, then exactly the `a(yv)` encoding of the message's entries,
     then zero padding to 8; and it refuses exactly the Invalid type, invalid names / body signature and
     oversized messages. -/
@@ -191,15 +216,84 @@ theorem marshalHeader_spec (m : Msg) (serial : Nat) (hr : msgInRange m serial) (
          out = padTo 8 (fixedBytes ⟨m.bo, m.typ, m.flags, m.body.length, serial⟩ ++ arr) ∧
          out.length + m.body.length ≤ maxMessageLen ∧
          (∀ e ∈ msgEntries m, e.1 ≠ 5 → e.1 ≠ 9 → ∃ f, entryField e = some (some f))) := by
-  sorry
+  rw [marshalHeader_core m serial hr out]
+  constructor
+  · rintro ⟨h1, h4, body, henc, harr, rfl, hsz, hef⟩
+    exact ⟨h1, h4, _, (enc_fieldArray _ _ _).2 ⟨body, henc, harr, rfl⟩, rfl, hsz, hef⟩
+  · rintro ⟨h1, h4, arr, harr, rfl, hsz, hef⟩
+    obtain ⟨body, henc, hlim, rfl⟩ := (enc_fieldArray _ _ _).1 harr
+    exact ⟨h1, h4, body, henc, hlim, rfl, hsz, hef⟩
 
+/-- a direct consequence of `marshalHeader_spec` (→), without `msgInRange`: whatever is marshalled carries
+    only valid names and a valid body signature, and stays within the message limit -/
+theorem marshalHeader_fields_valid (m : Msg) (serial : Nat) (out : List UInt8)
+    (h : marshalHeader m serial = some out) :
+    1 ≤ m.typ ∧ m.typ ≤ 4 ∧ out.length + m.body.length ≤ maxMessageLen ∧
+      (∀ e ∈ msgEntries m, e.1 ≠ 5 → e.1 ≠ 9 → ∃ f, entryField e = some (some f)) := by
+  obtain ⟨h1, h4, hn⟩ := marshalHeader_names m serial out h
+  refine ⟨h1, h4, ?_, names_entryField m hn⟩
+  rw [marshalHeader_ok m serial h1 h4 hn] at h
+  split at h
+  · simp at h
+  · split at h
+    · simp at h
+    · simp only [Option.some.injEq] at h; subst h; omega
+
+set_option linter.unusedVariables false in
 /-- Round trip of whole messages through header marshalling and the decoders. -/
 theorem marshal_decode (m : Msg) (serial : Nat) (hr : msgInRange m serial) (hs : 0 < serial)
     (hrs : m.replySerial ≠ some 0) (out : List UInt8)
     (h : marshalHeader m serial = some out) (fs : List Field)
     (hf : entriesFields (msgEntries m) = some fs) (hok : fieldsOk m.typ fs = true) :
     decodeMessage (out ++ m.body) = some (⟨m.bo, m.typ, m.flags, m.body.length, serial⟩, fs, m.body) := by
-  sorry
+  obtain ⟨h1, h4, body, henc, _, rfl, hsz, _⟩ := (marshalHeader_core m serial hr out).1 h
+  obtain ⟨hfl, hser, hbl, _, _⟩ := hr
+  have hfx : fixedOk ⟨m.bo, m.typ, m.flags, m.body.length, serial⟩ := ⟨h1, h4, hfl, hbl, hs, hser⟩
+  have hl12 := fixedBytes_length ⟨m.bo, m.typ, m.flags, m.body.length, serial⟩
+  have hmax : maxMessageLen < 256 ^ 4 := by decide
+  have hlt : body.length < 256 ^ 4 := by
+    simp only [padTo, List.length_append, hl12, bytesOf_length, zeros_length] at hsz
+    omega
+  generalize hfxdef : (⟨m.bo, m.typ, m.flags, m.body.length, serial⟩ : Fixed) = fx at *
+  have hbo : fx.bo = m.bo := by subst hfxdef; rfl
+  have hbl' : fx.bodyLen = m.body.length := by subst hfxdef; rfl
+  have htyp : fx.typ = m.typ := by subst hfxdef; rfl
+  rw [← hbo] at henc ⊢
+  have hbuf : padTo 8 (fixedBytes fx ++ (bytesOf fx.bo 4 body.length ++ body)) ++ m.body =
+      fixedBytes fx ++ (bytesOf fx.bo 4 body.length ++
+        (body ++ (zeros (padLen 8 (16 + body.length)) ++ m.body))) := by
+    simp only [padTo, List.length_append, hl12, bytesOf_length, List.append_assoc]
+    have : 12 + (4 + body.length) = 16 + body.length := by omega
+    rw [this]
+  rw [hbuf]
+  unfold decodeMessage
+  rw [decodeHeader_build fx fs (msgEntries m) body _ hfx henc hlt hf (by rw [htyp]; exact hok)]
+  simp only []
+  have hsp := skipPad_ok (fixedBytes fx ++ (bytesOf fx.bo 4 body.length ++ body)) m.body 8
+    (fixedBytes fx ++ (bytesOf fx.bo 4 body.length ++
+        (body ++ (zeros (padLen 8 (16 + body.length)) ++ m.body)))).length (16 + body.length)
+    (by simp [hl12]; omega) (by simp [hl12]; omega) (by simp [hl12]; omega)
+  simp only [List.append_assoc] at hsp
+  rw [hsp]
+  simp only []
+  by_cases hz : fx.bodyLen = 0
+  · rw [if_pos hz]
+    have : m.body = [] := List.eq_nil_of_length_eq_zero (by rw [← hbl']; exact hz)
+    rw [this]
+  · rw [if_neg hz]
+    have hlen : (fixedBytes fx ++ (bytesOf fx.bo 4 body.length ++
+        (body ++ (zeros (padLen 8 (16 + body.length)) ++ m.body)))).length -
+        (16 + body.length + padLen 8 (16 + body.length)) = fx.bodyLen := by
+      simp [hl12, hbl']; omega
+    rw [if_pos hlen]
+    have hdrop : (fixedBytes fx ++ (bytesOf fx.bo 4 body.length ++
+        (body ++ (zeros (padLen 8 (16 + body.length)) ++ m.body)))).drop
+        (16 + body.length + padLen 8 (16 + body.length)) = m.body := by
+      have := List.drop_left' (l₁ := fixedBytes fx ++ (bytesOf fx.bo 4 body.length ++
+        (body ++ zeros (padLen 8 (16 + body.length))))) (l₂ := m.body)
+        (i := 16 + body.length + padLen 8 (16 + body.length)) (by simp [hl12]; omega)
+      simpa [List.append_assoc] using this
+    rw [hdrop]
 
 theorem decodeMessage_sound (buf : List UInt8) (fx : Fixed) (fs : List Field) (body : List UInt8)
     (h : decodeMessage buf = some (fx, fs, body)) :
@@ -276,3 +370,11 @@ theorem bytesNeeded_limits (buf : List UInt8) (n : Nat) (h : bytesNeeded buf = .
         left; omega
 
 end Rustbus.Header
+
+#print axioms Rustbus.Header.decodeFixed_iff
+#print axioms Rustbus.Header.decodeHeader_iff
+#print axioms Rustbus.Header.marshalHeader_fields_valid
+#print axioms Rustbus.Header.marshalHeader_spec
+#print axioms Rustbus.Header.marshal_decode
+#print axioms Rustbus.Header.bytesNeeded_frame
+#print axioms Rustbus.Header.bytesNeeded_limits
